@@ -20,7 +20,7 @@ from ..core import Falsified, Outcome
 ID = "C12"
 LEVEL = "exploration"
 RULE = (
-    "Histories (Hypothesis RuleBasedStateMachine, 25/50 steps) over an alphabet of 16 solve specifications (shapes 6x5, 8x8, 7x9, "
+    "Histories (Hypothesis RuleBasedStateMachine, 25/50 steps) over an alphabet of 18 solve specifications (shapes 6x5, 8x8, 7x9, "
     "9x4; modes below/at/default; single and double precision; footprint and dispersion; single/multiple/unsorted levels; analytic; "
     "halo default/0/fractional; two specs differ from another only in the domain resp. the profiles, two more are near twins (8th digit) of other specs; the source array is one object per grid shape, refilled in place before every solve) each solvable in three representations of the same argument values (C / Fortran / transposed-view source, tuples or lists of profile arrays, Python ints, floats, NumPy scalars or persistent NumPy arrays for domain, halo, measurement point, levels, modes and background; no argument may be modified in place), and the operations set_threads(1..8), reset_fft_manager(), write-and-truncate the FFTW wisdom file "
     "then reset. Model: the first result seen for (spec, threads) - every later result for the same key must be bit-identical; every "
@@ -40,7 +40,7 @@ STEP_COUNT = {"quick": 25, "thorough": 50}
 
 def _spec_inputs(k):
     """Deterministic solver arguments for spec k."""
-    shapes = [(6, 5), (8, 8), (7, 9), (9, 4)]
+    shapes = [(6, 5), (8, 8), (7, 9), (9, 4), (12, 12)]
     table = [
         # shape, modes, precision, footprint, levels, analytic, halo
         (0, (4, 4), "double", False, 3, False, 0.0),
@@ -62,6 +62,9 @@ def _spec_inputs(k):
         # fluxes of order 1e-8 (kg m-2 s-1), no background: double and its single-precision twin
         (1, (8, 8), "double", False, [1, 4], False, 0.0),
         (1, (8, 8), "single", False, [1, 4], False, 0.0),
+        # default halo on 12x12 cells = a 36x36 padded grid (threaded FFT plans differ from serial ones at such sizes)
+        (4, (512, 512), "double", False, 3, False, None),
+        (4, (512, 512), "double", False, [2, 4], True, None),
     ]
     si, modes, prec, fp, lv, ana, halo = table[k]
     ny, nx = shapes[si]
@@ -88,7 +91,7 @@ def _spec_inputs(k):
                 halo=halo, precision=prec)
 
 
-NSPEC = 16
+NSPEC = 18
 _QBUF = {}
 _PERSIST = {}
 
@@ -96,7 +99,7 @@ _PERSIST = {}
 class ArgumentMutated(Exception):
     pass
 TWIN = {1: 0, 3: 2, 15: 14}  # single-precision spec -> its double-precision twin
-SHAPE_OF = [0, 0, 1, 1, 2, 2, 3, 1, 3, 0, 0, 0, 0, 2, 1, 1]
+SHAPE_OF = [0, 0, 1, 1, 2, 2, 3, 1, 3, 0, 0, 0, 0, 2, 1, 1, 4, 4]
 
 
 def _represent(a, rep):
@@ -360,7 +363,7 @@ def machine(tier, stats, last_fail):
             self._do(["solve", k])
             self._do(["solve", k])
 
-        @rule(n=st.sampled_from([1, 2, 3, 4, 8, 1, 2]))
+        @rule(n=st.sampled_from([1, 2, 3, 4, 8, 1, 7, 8]))
         def set_threads(self, n):
             self._do(["threads", n])
 
